@@ -291,5 +291,13 @@ def r4(repo, chk):
     g = Fn(repo, "quic.stream:QuicStreamSender.get_frame")
     rets_none = [r for r in g.returns() if r.value is None or (isinstance(r.value, ast.Constant) and r.value.value is None)]
     setters = [st for st, t, v in g.assigns(chain="self.buffer_is_empty") if isinstance(v, ast.Constant) and v.value is True]
-    ok = bool(setters) and all(any("IndexError" in norm(h.type or ast.Constant("")) for h in g.enclosing_handlers(st)) or isinstance(st._parent, ast.ExceptHandler) for st in setters)
+    def _in_index_error_handler(st):
+        p = getattr(st, "_parent", None)
+        while p is not None and p is not g.node:
+            if isinstance(p, ast.ExceptHandler) and p.type is not None and "IndexError" in norm(p.type):
+                return True
+            p = getattr(p, "_parent", None)
+        return False
+
+    ok = bool(setters) and all(_in_index_error_handler(st) for st in setters)
     chk.ob("R4", "get_frame declares the buffer empty only when nothing is pending (a frame withheld by a limit leaves the stream scheduled)", ok, "", g.loc(g.node))
